@@ -52,7 +52,8 @@ CLAIMED = {
             "(arbitrary counters, flags, checksum, dictionary use), a rejected header leaves the old state; D2 reset; H4 reuse path.", "DESIGN.md 4 C07"),
     "C08": ("other", "BOUNDED contract checking on the real code, not a proof for all sizes (hence category 'other'): D1/D2 (Kani, ring capacities 5/9, arbitrary invariant start state): on every drain path the hasher ends in exactly the state of a fresh XXH64 hasher fed the bytes handed out (state equality, "
             "twox-hash as reference), both ring segments, partial acceptance, errors; FD1: stored checksum = the 4 bytes after the last block, little-endian; "
-            "FD7: calculated checksum accessor; E5 (bounded): compressor re-seeds per frame, hashes exactly the bytes read, trailer = low 32 bits LE.", "DESIGN.md 4 C08"),
+            "FD7: calculated checksum accessor; E5V (Verus, unbounded): the compressor re-seeds the hasher per frame, it absorbs exactly the bytes read, the trailer is the "
+            "low 32 bits of its digest; E5 (Kani, bounded): the same on concrete data incl. the little-endian byte order.", "DESIGN.md 4 C08"),
     "C09": ("proof", "FD4 (Kani): dictionary selected by id, missing id is DictNotProvided, frame without id sees no dictionary, force_dict; FD5 (Verus): init_from_dict "
             "installs exactly the dictionary's tables/offsets/content and reset removes all of it; D0 (Verus, unbounded): repeat_from_dict = match copy over "
             "dict ++ window incl. straddling, error iff the offset reaches before the dictionary or the window has passed; S2/Q3: hostile zero offsets resolve "
@@ -87,7 +88,9 @@ CLAIMED = {
     "C14": ("proof", "Finite, loop-free functions (code tables, repeat-offset machine, block/frame/literals/sequence headers) are "
                      "proved against RFC-transcribed spec functions over their entire input domains by Kani contracts; encoder/decoder "
                      "inverse pairs are two-contract lemmas; E8 (Verus) literals-header field widths on the encoder side.", "DESIGN.md 3.2, 4 C14"),
-    "C15": ("proof", "E4 (Kani, bounded sizes, symbolic contents): per block header/payload consistency, RLE only for constant blocks, raw fallback, cost <= 3 + length, "
+    "C15": ("proof", "E5V (Verus, unbounded, verbatim FrameCompressor::compress, every input length / read fragmentation / slice size): the frame is header, blocks, trailer and nothing else; "
+            "every block but the last carries one full matcher space, exactly the final block is flagged last, the blocks' data concatenate to exactly the input (an exact "
+            "multiple ends with an empty raw last block); E4 (Kani, bounded sizes, symbolic contents): per block header/payload consistency, RLE only for constant blocks, raw fallback, cost <= 3 + length, "
             "compressed strictly smaller; E5 (bounded): frame structure, one last block, empty final block for exact multiples, nothing after the trailer; "
             "E3 (complete): emitted frame header parses back with a legal window >= the matcher's; H1' block header inverse; E8 literal header widths; "
             "E7V (Verus, unbounded): match offsets within the retained data and the advertised window.", "DESIGN.md 4 C15"),
